@@ -1,5 +1,5 @@
 """Obligations shared by several properties."""
-from sa.helpers import (mkflow, spec, code, one, calls, bind_call, fmt, atom_of,
+from sa.helpers import (the_return, mkflow, spec, code, one, calls, bind_call, fmt, atom_of,
                         unparse)
 from sa.index import AnalysisError
 
@@ -25,7 +25,7 @@ def model_pipeline(ix, R, oid, site=SM + '::SimpleForwardModel.model'):
         why.append('prepare is not called for every member of contribution_list')
     if pi.loops or pi.guards or si.loops or si.guards:
         why.append('conditional pipeline step')
-    r = one(fl.of('return'), 'return')
+    r = the_return(fl)
     at = atom_of(fl, r.value)
     if at is None or at.head != 'tuple' or not fl.tab.equal(at.args[0], g):
         why.append('returns %s' % fmt(fl, r.value))
